@@ -112,9 +112,10 @@ def far_from(x, r):
     if t is datetime:
         from datetime import timezone
         twin = x.replace(tzinfo=None) if x.tzinfo is not None else x.replace(tzinfo=timezone.utc)
-        return r.choice((x + timedelta(seconds=1), twin, x.replace(microsecond=(x.microsecond + 1) % 10 ** 6)))
+        return r.choice((x + timedelta(seconds=1), twin, x.replace(microsecond=(x.microsecond + 1) % 10 ** 6),
+                         x.date()))                                 # the same calendar day, but a plain date
     if t is date:
-        return x + timedelta(days=1)
+        return r.choice((x + timedelta(days=1), datetime(x.year, x.month, x.day, 12, 0), datetime(x.year, x.month, x.day)))
     if t is list:
         return r.choice((x + [None], x[:-1] if x else [0], "s", {}))
     if t is dict:
@@ -135,6 +136,32 @@ def subtyped(w, r):
         return [subtyped(x, r) for x in w]
     if t is dict:
         return {k: subtyped(x, r) for k, x in w.items()}
+    return w
+
+
+def lookalike(w, r):
+    """The witness with some leaves in the other common spelling of the same datum (what arrives from JSON,
+    a form, a database driver): a uuid / datetime / date as its string, an int as a float or a string, bytes
+    as bytearray or str.  Refused at typed positions today (the case is discarded); explored where accepted."""
+    t = type(w)
+    if t is list:
+        return [lookalike(x, r) for x in w]
+    if t is dict:
+        return {k: lookalike(x, r) for k, x in w.items()}
+    if r.random() < 0.4:
+        return w
+    if t is UUID:
+        return r.choice((str(w), w.hex, str(w).upper()))
+    if t is datetime or t is date:
+        return w.isoformat()
+    if t is int:
+        return r.choice((float(w), str(w)))
+    if t is float and w == w and abs(w) < 1e15 and w == int(w):
+        return int(w)
+    if t is bytes:
+        return r.choice((bytearray(w), w.decode("latin1")))
+    if t is str:
+        return w.encode("utf-8", "surrogatepass")
     return w
 
 
@@ -239,8 +266,10 @@ class Prop(BaseProp):
             vk, v = "witness", w
         elif x < 0.75:
             vk, v = "partial", S.partial_of(w, r, p_drop=r.choice((0.2, 0.5, 0.8)))
-        elif x < 0.8:
+        elif x < 0.79:
             vk, v = "subtyped", subtyped(w, r)
+        elif x < 0.82:
+            vk, v = "lookalike", lookalike(w, r)
         elif x < 0.9:
             vk, v = "perturbed", perturb(w, r)
         else:
